@@ -29,7 +29,7 @@
 //! at a lock/atomic access inside `distributor_channels.rs`.
 //!
 //! **Exhaustive sub-run** (`Property::extra`): `channels(2)`, one sender per channel with 2 messages
-//! each, two draining receivers: every schedule with ≤ 2 preemptions and ≤ 1 (quick) / ≤ 2
+//! each, two draining receivers: every schedule with ≤ 2 preemptions and ≤ 2 (quick) / ≤ 3
 //! (thorough) forced choices deviating from round robin is enumerated (`sched::explore`).
 //!
 //! **Deviations from DESIGN.md**: schedule = `sched::Schedule` ((gap, pick) preemption list + forced
@@ -530,7 +530,7 @@ impl Property for C15 {
             .boxed()
     }
     fn budget(&self, tier: Tier) -> Budget {
-        Budget::new(tier.pick(20_000, 2_000_000), tier.pick(8, 16)).min_nontrivial(tier.pick(500, 50_000)).case_timeout(60).shrink(4000, 120)
+        Budget::new(tier.pick(150_000, 5_000_000), tier.pick(8, 16)).min_nontrivial(tier.pick(5_000, 200_000)).case_timeout(60).shrink(4000, 120)
     }
     fn rule(&self) -> String {
         "generated (channel layout, sender scripts, consumer scripts, receiver ownership, schedule with bounded preemptions) run under the harness scheduler; \
@@ -564,7 +564,7 @@ impl Property for C15 {
             rx_owner: vec![0, 1, 0, 0],
             schedule: Schedule::default(),
         };
-        let bounds = Bounds { max_preemptions: 2, max_forced_deviations: tier.pick(1, 2), max_runs: tier.pick(400_000, 20_000_000) };
+        let bounds = Bounds { max_preemptions: 2, max_forced_deviations: tier.pick(2, 3), max_runs: tier.pick(2_000_000, 50_000_000) };
         let mut gate_closed = 0u64;
         let t0 = std::time::Instant::now();
         let res = sched::explore(&bounds, |s| {
